@@ -514,7 +514,7 @@ def _long_rotation_kernel(isa, shapes, rnd):
     return instrs
 
 
-def rotation_cases(run, pid, seed, n_kernels, maxlen, all_offsets, archs_x86, archs_arm, max_shipped_rot=None, n_long=0):
+def rotation_cases(run, pid, seed, n_kernels, maxlen, all_offsets, archs_x86, archs_arm, max_shipped_rot=None, n_long=0, n_vocab=0):
     """Analyse every kernel at offset 0 and at rotation offsets; each rotated analysis becomes a
     `rot` case carrying the base kernel's observed doubled graph."""
     rnd = random.Random(seed * 31 + 3)
@@ -568,6 +568,27 @@ def rotation_cases(run, pid, seed, n_kernels, maxlen, all_offsets, archs_x86, ar
                 offs = sorted(rnd.sample(offs, max_shipped_rot))
             add("arch", isa, arch, "%s:rot:%s:%s" % (pid, arch, name), lines,
                 {"isa": isa, "src": "shipped:" + arch, "shapes": [name]}, offs)
+    # kernels over the curated vocabulary of real instructions (several forms of one mnemonic, implicit operands,
+    # shifts, flags): whatever the analysis remembers about an instruction it has seen must not depend on which
+    # line of the body comes first
+    from harness import vocab
+
+    for isa, archs in (("x86", archs_x86), ("aarch64", archs_arm)):
+        for arch in archs:
+            for q in range(n_vocab):
+                gp, vec = vocab.pools(isa, rnd, ngp=rnd.choice([2, 3]), nvec=2)
+                ln = rnd.randint(3, 7)
+                instrs = [vocab.gen(isa, rnd, gp, vec) for _ in range(ln)]
+                stems = vocab.multi_form_stems(isa)
+                if stems and q % 2 == 0:
+                    # every operand form of one mnemonic in one kernel, in random positions
+                    forms = stems[rnd.choice(sorted(stems))]
+                    for e in rnd.sample(forms, min(len(forms), ln)):
+                        instrs[rnd.randrange(ln)] = vocab.gen(isa, rnd, gp, vec, entry=e)
+                lines = ["\t" + i["text"] for i in instrs]
+                offs = list(range(1, ln)) if all_offsets else sorted(rnd.sample(range(1, ln), min(ln - 1, 3)))
+                add("arch", isa, arch, "%s:rot:vocab:%s:%d" % (pid, arch, q), lines,
+                    {"isa": isa, "src": "vocab:" + arch, "shapes": [i["shape"] for i in instrs]}, offs)
     obs = observe_parallel(tasks)
     _SCRATCH.extend(dirs)
     byid = {c["id"]: c for c in obs}
